@@ -1,5 +1,5 @@
 PROP = {
-    "claim": "Proof: in the I/O model the output log after any sequence of writes to 0xFF01/0xFF02 equals the spec (the data byte held at "
+    "claim": "(serial_log_grows, serial_log_grows_blockstep, time_is_silent) for the WHOLE machine (Core.update Sys.dev: every instruction, interrupt dispatch, OAM DMA, timer, LCD, joypad) the bytes already emitted are never retracted or reordered, in either stepping mode - the log after a step extends the log before it - and the passage of time alone emits nothing. Proof: in the I/O model the output log after any sequence of writes to 0xFF01/0xFF02 equals the spec (the data byte held at "
              "each control write with bit 7 set, in order), and no other register write appends to it (serial_log, core_silent_io). Tie: "
              "generated guest programs (LD A,v / LDH (n),A ... HALT, split over several blocks, in bank 0 and in the switchable bank) run "
              "through the real Core::run_code_block of both builds with fd 1 captured; the bytes that reached fd 1 must equal the spec "
@@ -10,7 +10,7 @@ PROP = {
     "technique": "Lean 4 induction over write sequences on the I/O model + fd-1 capture differential in both builds + source scan",
     "streams": [{"name": "c18", "join": True, "shards": {"quick": 1, "thorough": 8}},
                 {"name": "c18.fill", "join": True}],
-    "modules": ["GbVerif.Model.Bus", "GbVerif.Spec.Serial", "GbVerif.Proofs.NatBits", "GbVerif.Proofs.Enum"],
+    "modules": ["GbVerif.Proofs.SerialMono", "GbVerif.Proofs.Machine", "GbVerif.Proofs.SysFrame", "GbVerif.Proofs.SysBatch", "GbVerif.Proofs.SysTotal", "GbVerif.Proofs.InterpFrame", "GbVerif.Model.Sys", "GbVerif.Model.Bus", "GbVerif.Spec.Serial", "GbVerif.Proofs.NatBits", "GbVerif.Proofs.Enum"],
     "stdout_writers_allowed": ["src/devices/serial.rs"],
     "rule": "300 (thorough 20000) programs of 1..24 serial register writes with values biased to bit-7 edges; non-trivial = at least one byte was due on stdout",
     "assumptions": ["messages printed by main.rs before a ROM runs (load diagnostics) are outside 'while a ROM is running'"],
